@@ -100,6 +100,29 @@ func checkHeader(c *mon.Ctx, h *ref.PES) (b []byte, hdrEnd int, ok bool) {
 			bad("dts-value", fmt.Sprintf("DTS()=%d, encoded %d", ph.DTS(), h.DTS))
 		}
 	}
+	// the scalar getters of a decoded header do not follow later writes to the caller's buffer
+	// (Data() may alias the input and is not included)
+	if ok && !ref.PESNoOptionalHeader(h.StreamID) && len(b) > 0 {
+		for i := range b {
+			b[i] ^= 0xa5
+		}
+		if ph.StreamId() != h.StreamID || ph.DataAligned() != h.DataAligned() || ph.HasPTS() != (h.PTSDTS >= 2) || ph.HasDTS() != (h.PTSDTS == 3) ||
+			(h.PTSDTS >= 2 && ph.PTS() != h.PTS) || (h.PTSDTS == 3 && ph.DTS() != h.DTS) {
+			bad("getters-follow-callers-buffer", "after the caller overwrote its buffer the decoded header reports different stream id / flags / PTS / DTS")
+		}
+		copy(b, snap)
+		// and the same when the buffer is re-used before the first query
+		b2 := append([]byte{}, snap...)
+		if ph2, err := pes.NewPESHeader(b2); err == nil && ph2 != nil {
+			for i := range b2 {
+				b2[i] ^= 0x5a
+			}
+			if ph2.StreamId() != h.StreamID || ph2.DataAligned() != h.DataAligned() || ph2.HasPTS() != (h.PTSDTS >= 2) || ph2.HasDTS() != (h.PTSDTS == 3) ||
+				(h.PTSDTS >= 2 && ph2.PTS() != h.PTS) || (h.PTSDTS == 3 && ph2.DTS() != h.DTS) {
+				bad("getters-follow-callers-buffer", "the caller overwrote its buffer before the first query and the decoded header reports different stream id / flags / PTS / DTS")
+			}
+		}
+	}
 	return b, hdrEnd, ok
 }
 
